@@ -54,7 +54,7 @@ type skOpts struct {
 
 var (
 	skP21 = num.MakePercentage(210, 3)
-	skP10 = num.MakePercentage(100, 3)
+	skP10 = num.MakePercentage(55, 3) // 5.5 %: a rate whose last decimal is odd, so that percentage-of lands on ties
 	skP5  = num.MakePercentage(50, 3)
 	skP50 = num.MakePercentage(500, 3)
 )
